@@ -35,6 +35,7 @@ theorem removePeaks_length (n : Nat) (peaks : List (Peak α)) (t : Tape α) (p' 
       | choice i => simp [removePeaks] at h
       | uniform x => simp [removePeaks] at h
       | gauss x => simp [removePeaks] at h
+      | sample idx => simp [removePeaks] at h
 
 theorem addPeaks_length (cfg : Config α) (n : Nat) (peaks : List (Peak α)) (t : Tape α) (p' : List (Peak α))
     (t' : Tape α) (h : addPeaks cfg n peaks t = some (p', t')) : p'.length = peaks.length + n := by
@@ -64,6 +65,7 @@ theorem addPeaks_length (cfg : Config α) (n : Nat) (peaks : List (Peak α)) (t 
       | randrange i => simp [addPeaks] at h
       | uniform x => simp [addPeaks] at h
       | gauss x => simp [addPeaks] at h
+      | sample idx => simp [addPeaks] at h
 
 theorem changeAll_length (cfg : Config α) (peaks : List (Peak α)) (t : Tape α) (p' : List (Peak α))
     (t' : Tape α) (h : changeAll cfg peaks t = some (p', t')) : p'.length = peaks.length := by
